@@ -128,6 +128,21 @@ func runC13(c *run.Ctx) {
 				}
 				if aerr != nil {
 					c.Violation("c13-wellformed-rejected", map[string]interface{}{"sdl": sdl, "later_load": ext, "error": aerr.Error(), "diag": "the same two documents were accepted by another root a moment ago"})
+				} else {
+					// the directive is known to the root by now: a later document that uses it with an argument it does not
+					// declare is as ill-formed as the same use in the directive's own document
+					late := fmt.Sprintf("scalar ZzLateS%d @zzMark%d(n: 1, nopeArgZz: 2)", i, i)
+					var lerr error
+					run.Protect(func() { lerr = again.ParseString(late) })
+					mutants++
+					c.Eval(sdl+"\n"+ext+"\n"+late, true)
+					c.Bucket("rule", "late-use-of-a-known-directive-with-an-undeclared-argument")
+					if lerr == nil {
+						c.Violation("c13-mutant-accepted", map[string]interface{}{"rule": "directive-undeclared-arg (directive loaded earlier)", "offender": "nopeArgZz", "sdl": sdl, "later_loads": []string{ext, late},
+							"diag": "the use gives the directive an argument it does not declare and was loaded without error"})
+					} else if !strings.Contains(lerr.Error(), "nopeArgZz") {
+						c.Violation("c13-offender-not-named", map[string]interface{}{"rule": "directive-undeclared-arg (directive loaded earlier)", "offender": "nopeArgZz", "later_loads": []string{ext, late}, "diag": clip(lerr.Error(), 300)})
+					}
 				}
 				c.Count("roots_checked_for_state_shared_with_another_root", 1)
 			}
